@@ -195,18 +195,21 @@ fn pipeline(t: &mut Tape, ctx: &mut Ctx) -> CheckResult {
                 let tl = type_list(t, al, 2);
                 let g = gen::diagram_with_boundary(t, &sz, al, &b, &tl, ctx);
                 let h = gen::diagram(t, &sz, al, ctx);
-                what = format!("lax: (; [{}]) tensor_assign [{}]", g.pretty(), h.pretty());
+                what = format!("lax: [{}] tensor_assign (_ ; [{}])", h.pretty(), g.pretty());
                 let l = LOH::from_strict(cur.clone());
                 let mut c = Arrow::compose(&l, &to_lax_d(&g)).ok_or_else(|| ctx.fail("compose-defined", "lax composition undefined although types match"))?;
                 from_lax(&c).map_err(|e| ctx.fail("output-well-formed", format!("lax compose: {e}")))?;
-                c.tensor_assign(to_lax_d(&h));
+                // the composite still carries its pending pairs when it is appended in place
+                let mut acc = to_lax_d(&h);
+                acc.tensor_assign(c);
+                let mut c = acc;
                 from_lax(&c).map_err(|e| ctx.fail("output-well-formed", format!("tensor_assign: {e}")))?;
-                c.quotient().map_err(|_| ctx.fail("output-well-formed", "quotient of a type-matched lax composite failed"))?;
+                c.quotient().map_err(|_| ctx.fail("output-well-formed", "quotient of [h] tensor_assign (type-matched lax composite) failed"))?;
                 from_lax(&c).map_err(|e| ctx.fail("output-well-formed", format!("quotient: {e}")))?;
                 cur = c.to_strict();
                 b = g.target_type();
-                a.extend(h.source_type());
-                b.extend(h.target_type());
+                a = h.source_type().into_iter().chain(a).collect();
+                b = h.target_type().into_iter().chain(b).collect();
             }
             10 => {
                 // coequalise vertices along equal-labelled pairs
